@@ -12,7 +12,7 @@ EXTRA = {"C05-m8": ["C07"], "C04-m2": ["C19"], "C09-m5": ["C14"], "C01-m6": ["C0
          "C19-m12": ["C04"], "C11-m12": ["C05"], "C16-m11": ["C12"], "C16-m12": ["C10"], "C12-m11": ["C05"],
          "C10-m12": ["C04"], "C09-m11": ["C10"], "C02-m12": ["C12"], "C11-m11": ["C10", "C02"], "C01-m12": ["C02", "C10"],
          "C02-m13": ["C18"], "C06-m13": ["C03"], "C19-m13": ["C03"], "C03-m13": ["C04"], "C04-m13": ["C05"],
-         "C17-m13": ["C09", "C10", "C16"], "C09-m13": ["C10"], "C01-m13": ["C06", "C03"], "C11-m13": ["C10"], "C14-m13": ["C15"]}  # the same change is also (only) visible through another property's check
+         "C17-m13": ["C09", "C10", "C16"], "C09-m13": ["C10"], "C01-m13": ["C06", "C03"], "C11-m13": ["C10"], "C14-m13": ["C15"], "C08-m13": ["C12"], "C12-m13": ["C10", "C11"]}  # the same change is also (only) visible through another property's check
 
 
 def sh(cmd, **kw):
